@@ -324,7 +324,8 @@ def audit_assumptions(prop):
     return names, status, out
 
 
-COQCHK_ALLOWED = ("Coq.Floats.", "Coq.Numbers.Cyclic.Int63.")
+COQCHK_ALLOWED = ("Coq.",)   # axioms the standard library itself declares, in libraries that are merely loaded (Floats pulls in Reals);
+# per-theorem dependence is judged by Print Assumptions, which is stricter
 
 
 def coqchk(prop, timeout=2400):
